@@ -92,6 +92,7 @@ bool Logic::isBuiltinFunction(SymRef const sr) const {
 }
 
 bool Logic::isReservedWord(std::string const & name) const {
+    if (name == "_" or name == "!") return true;
     return tokens::tokenNames.find(name) != tokens::tokenNames.end();
 }
 
